@@ -73,6 +73,724 @@ def leak_shape(o, script):
     return any(re.match(r"E pg (\d+)", l) and int(l.split()[2]) in bad for l in script)
 
 
+
+# ============================================================================ filters x non-local exits (FX)
+# A frame that holds filter state is left by something other than its return: a C++ exception unwinds it
+# (mcount_rstack_rehook_exception, also on a call made from a landing pad), a longjmp abandons it
+# (restore_jmpbuf_rstack).  Harness: harness/h1_c11_driver.c in FX mode (fake activation frames, fake PLT
+# module whose symbols are matched BY NAME against libmcount's tables, the real libmcount configured through
+# the UFTRACE_* environment); model: `Mcount` with the ops FE/FR/FT/FUW/FC/FSJ/FLJ (unwindExc, padEntry*,
+# pltEntry, jmpSave/jmpRestore of Model/Mcount.lean).  Used by checks/c11.py as well.
+FX_FINDINGS = {
+    "lj": ("C05-LONGJMP-FILTER-LEAK",
+           "restore_jmpbuf_rstack() (libmcount/plthook.c) resets idx/record_idx but not the thread's filter state: a longjmp "
+           "out of a -N function leaves out_count > 0 (every later call vanishes from the trace), out of a -F function "
+           "leaves in_count > 0 (every later call is recorded) (theorem c05_prefix_longjmp_leak_witness)",
+           "proposed_fixes/C05-LONGJMP-FILTER-LEAK.diff"),
+    "pad": ("C05-EXC-PAD-FILTER",
+            "__mcount_entry()/__plthook_entry() run mcount_entry_filter_check() BEFORE mcount_rstack_rehook_exception() drops "
+            "the frames a C++ exception unwound: a call made from a landing pad (destructor) is filtered in the state of the "
+            "dead callee (hidden under -N/-D although its caller is visible) and the depth/time/size saved for its exit are "
+            "the dead callee's, which then leak into the later calls of the function that caught the exception "
+            "(theorem c05_prefix_exc_pad_witness)",
+            "proposed_fixes/C05-EXC-PAD-FILTER.diff"),
+}
+# child ids of harness/h1_c11_driver.c (100 + index in plt_names)
+FX_PLAIN = (100, 112, 113)
+FX_FLUSHING = (111,)              # fork: PLT_FL_FLUSH only
+FX_SETJMP = {"setjmp": 101, "__sigsetjmp": 110, "_setjmp": 114, "sigsetjmp": 115}
+FX_LONGJMP = {"longjmp": 102, "siglongjmp": 109, "__longjmp_chk": 116, "_longjmp": 117}
+
+
+def fx_opts(rng, core):
+    """an option set for the FX family: everything of lib/mcgen.py that the exits of a frame restore
+    (no size filters: the fake PLT symbols have no size; no trace_on/off: global, not per frame; no --max-stack)"""
+    o = mcgen.rand_opts(rng, rich=not core)
+    o.Z, o.max_stack, o.trace_off = None, None, False
+    fix = lambda f: f if f < 8 else rng.randrange(8)      # the C11 driver has f0..f7 only
+    o.F = sorted(set(fix(f) for f in o.F))
+    o.N = sorted(set(fix(f) for f in o.N) - set(o.F))
+    o.C = [fix(f) for f in o.C]
+    T = []
+    for fn, acts in o.T:
+        acts = [a for a in acts if a[0] not in ("size", "trace_on", "trace_off")]
+        fn = fix(fn)
+        if acts and all(fn != g for g, _ in T):
+            T.append((fn, acts))
+    o.T = T
+    if core:
+        o.C, o.L, o.T = [], None, []
+        if not (o.F or o.N or o.D):
+            # the family is about frames that hold filter state
+            if rng.random() < 0.6:
+                o.N = [rng.randrange(8)]
+            else:
+                o.D = rng.randint(1, 4)
+    return o
+
+
+def fx_env(o):
+    env = mcgen.to_env(o)
+    if "UFTRACE_LOCATION" in env:
+        env["UFTRACE_LOCATION"] = env["UFTRACE_LOCATION"].replace("h1_driver.c", "h1_c11_driver.c")
+    return env
+
+
+class FXGen:
+    """a random history of one thread with calls (hooked by mcount, through the PLT, or not hooked), returns,
+    C++ exceptions (throw, unwinding k frames with optional cleanup landing pads that call destructors,
+    _Unwind_Resume, catch) and setjmp/longjmp, as (a) script for harness/h1_c11_driver.c, (b) script for the
+    model, (c) the plain call history (E/X/T lines) in which every frame left by an exception or a longjmp
+    returns at that moment: the input of the documented-semantics monitor."""
+
+    def __init__(self, rng, nops, lj=True, pads=True, lj_names=None, sj_names=None, flush_calls=True):
+        self.rng, self.nops = rng, nops
+        self.lj, self.pads = lj, pads
+        # library calls that are only force-flushed (fork): the flush writes pending ENTRY records whatever -t says,
+        # so they stay out of the histories judged by the documented-selection monitor
+        self.plt_ids = FX_PLAIN + FX_PLAIN + (FX_FLUSHING if flush_calls else ())
+        self.lj_ids = [FX_LONGJMP[n] for n in (lj_names or ["longjmp", "siglongjmp", "__longjmp_chk"])]
+        self.sj_ids = [FX_SETJMP[n] for n in (sj_names or sorted(FX_SETJMP))]
+        self.c, self.m, self.hist = ["FXMODE"], [], []
+        self.frames = []            # live script frames: dict(slot, kind, fn, id)
+        self.now = 1000
+        self.orig = 1000
+        self.fid = 0
+        self.jbs = {}
+        self.pad_calls = 0          # hooked calls made from a landing pad
+        self.exceptions = 0
+        self.longjmps = 0
+        self.lj_over = set()        # functions whose frames a longjmp abandoned
+        self.unw_over = set()       # functions whose frames an exception unwound
+
+    def emit(self, c, m):
+        self.c.append(c)
+        self.m.append(m)
+
+    def tick(self, lo=1):
+        self.now += self.rng.choice([1, 2, 5, 9, 10, 11, 30, 60]) if lo else 0
+        self.emit("T %d" % self.now, "T %d" % self.now)
+        self.hist.append("T %d" % self.now)
+
+    def top_slot(self):
+        return self.frames[-1]["slot"] if self.frames else 63
+
+    def new_orig(self):
+        self.orig += 1
+        return self.orig
+
+    def call(self, k=None, slot=None, fpw=None, from_pad=False):
+        rng = self.rng
+        if k is None:
+            k = rng.choice("mmmmmpn")
+        top = self.top_slot()
+        if slot is None:
+            slot = top - rng.randint(2, 3)
+        if slot < 4:
+            return False
+        if k == "p":
+            fn = rng.choice(self.plt_ids)
+        else:
+            fn = rng.randrange(8)
+        if fpw is None:
+            fpw = (top - 1) if (k != "m" or rng.random() < 0.7) else 0
+            if not self.frames:
+                fpw = 0
+        self.fid += 1
+        self.frames.append({"slot": slot, "kind": k, "fn": fn, "id": self.fid})
+        flush = 1 if fn in FX_FLUSHING else 0
+        self.emit("CALL %s %d %d %d %d" % (k, fn, slot, self.new_orig(), fpw),
+                  "FE %s %d %d" % ({"m": "pg", "p": "plt", "n": "none"}[k], fn, flush))
+        if k != "n":
+            self.hist.append("E %s %d" % ("pg" if k == "m" else "plt", fn))
+        return True
+
+    def ret(self):
+        f = self.frames.pop()
+        self.emit("RET %d" % f["slot"], "FR")
+        if f["kind"] != "n":
+            self.hist.append("X")
+
+    def setjmp(self):
+        slot = self.top_slot() - self.rng.randint(2, 3)
+        if slot < 4 or not self.frames:
+            return False
+        j = self.rng.randrange(4)
+        fn = self.rng.choice(self.sj_ids)
+        self.jbs[j] = [dict(f) for f in self.frames]
+        self.emit("SETJMP %d %d %d %d" % (j, fn, slot, self.new_orig()), "FSJ %d %d" % (j, fn))
+        self.hist += ["E plt %d" % fn, "X"]
+        return True
+
+    def live_jbs(self):
+        cur = [f["id"] for f in self.frames]
+        return [j for j, fr in self.jbs.items() if [f["id"] for f in fr] == cur[:len(fr)]]
+
+    def longjmp(self, j):
+        slot = self.top_slot() - self.rng.randint(2, 3)
+        if slot < 4:
+            return False
+        fn = self.rng.choice(self.lj_ids)
+        keep = len(self.jbs[j])
+        gone = self.frames[keep:]
+        self.emit("LONGJMP %d %d %d %d" % (j, fn, slot, self.new_orig()), "FLJ %d %d 1" % (j, fn))
+        # the history: the jump is a call that ends, with every abandoned frame, at the landing
+        self.hist.append("E plt %d" % fn)
+        self.hist.append("X")
+        for f in reversed(gone):
+            if f["kind"] != "n":
+                self.hist.append("X")
+                if f["kind"] == "m":
+                    self.lj_over.add(f["fn"])
+        self.frames = [dict(f) for f in self.jbs[j]]
+        self.longjmps += 1
+        return True
+
+    def drop_dead(self, dead):
+        """the history: the unwound frames end now"""
+        for f in dead:
+            if f["kind"] != "n":
+                self.hist.append("X")
+                if f["kind"] == "m":
+                    self.unw_over.add(f["fn"])
+        del dead[:]
+
+    def exception(self):
+        rng = self.rng
+        self.exceptions += 1
+        self.emit("THROW", "FT")
+        dead = []                 # unwound frames whose entries are still on the shadow stack (innermost first)
+        dead_slots = []
+        while True:
+            f = self.frames.pop()
+            dead.append(f)
+            dead_slots.append(f["slot"])
+            self.emit("UNWIND", "FUW")
+            if not self.frames:
+                # no handler: the script ends (std::terminate)
+                return False
+            pad = self.frames[-1]
+            r = rng.random()
+            if self.pads and r < 0.3 and len(self.frames) >= 2:
+                ncalls = rng.randint(1, 2)
+                for _ in range(ncalls):
+                    hi = pad["slot"] - 2
+                    lo = max(dead_slots) if dead_slots else hi
+                    slot = rng.choice([lo, lo, min(hi, lo + 1)]) if lo <= hi else hi
+                    k = rng.choice("nmmmp")
+                    fpw = (pad["slot"] - 1) if k == "m" else 0
+                    if slot < 4:
+                        continue
+                    if k != "n":
+                        # the repaired entry hooks drop the unwound frames at once
+                        self.drop_dead(dead)
+                        dead_slots = []
+                        self.pad_calls += 1
+                    # (no calls below a landing-pad call: as found, a pad call that the filter rejects leaves
+                    # in_exception set, and what its callees would drop depends on their frame words)
+                    self.call(k=k, slot=slot, fpw=fpw, from_pad=True)
+                    self.tick()
+                    self.ret()
+                self.emit("RESUME", "FT")
+                continue
+            if r < 0.75 or len(self.frames) == 1:
+                self.emit("CATCH %d" % (pad["slot"] - 1), "FC")
+                self.drop_dead(dead)
+                return True
+            # no handler in this frame: keep unwinding
+
+    def generate(self):
+        rng = self.rng
+        self.tick(0)
+        self.call(k="m", slot=62, fpw=0)
+        while len(self.c) < self.nops:
+            self.tick(rng.random() < 0.85)
+            r = rng.random()
+            if r < 0.36:
+                if not self.call():
+                    self.ret()
+            elif r < 0.62:
+                if len(self.frames) > 1:
+                    self.ret()
+                else:
+                    self.call()
+            elif r < 0.72 and self.lj:
+                self.setjmp()
+            elif r < 0.82 and self.lj:
+                lj = self.live_jbs()
+                if lj:
+                    self.longjmp(rng.choice(lj))
+            elif r < 0.97:
+                if len(self.frames) >= 2:
+                    if not self.exception():
+                        break
+        while self.frames:
+            self.tick(rng.random() < 0.85)
+            self.ret()
+        # two probe calls: a leaked filter state shows in the stream
+        for _ in range(2):
+            self.tick()
+            self.call(k="m", slot=60, fpw=0)
+            self.tick()
+            self.ret()
+        self.emit("END", "END")
+        self.hist.append("END")
+        return self
+
+
+def fx_run(ctx, exe, sizes, cases, nlfix):
+    """cases: dict(opts, gen).  Adds impl / model (normalised result lines, one per op)"""
+    def one(ic):
+        i, c = ic
+        env = dict(fx_env(c["opts"]), UFTRACE_BUFFER="1048576")
+        return h1.run(ctx, exe, env, c["gen"].c, 20000 + i)
+    from concurrent.futures import ThreadPoolExecutor
+    with ThreadPoolExecutor(16) as ex:
+        rs = list(ex.map(one, enumerate(cases)))
+    ml, spans = [], []
+    for c in cases:
+        pre = ["RESET"] + mcgen.to_model(c["opts"], sizes, False) + ["NLFIX %d %d" % (nlfix["lj"], nlfix["pad"])]
+        spans.append((len(ml) + len(pre), len(c["gen"].m)))
+        ml += pre + c["gen"].m
+    mo = C.run_model("Mcount", ml)
+    for c, r, (a, n) in zip(cases, rs, spans):
+        c["impl"] = [C.norm(l[5:]) for l in r["lines"] if l.startswith("IMPL ")]
+        c["model"] = [C.norm(x) for x in mo[a:a + n]]
+        c["stderr"] = r["stderr"][-300:]
+    return cases
+
+
+def fx_stream(lines):
+    out = []
+    for l in lines:
+        m = re.search(r"recs=(.*)$", l)
+        if m and m.group(1).strip() != "-":
+            out += m.group(1).split()
+    return out
+
+
+def fx_monitor(c):
+    """the property on the implementation's output, independent of the model:
+    (1) after everything returned the filter state is the initial one; (2) with -F/-N/-D/-t only, the records are
+    the documented selection of the history in which the frames left by an exception returned at that moment
+    (ENTRY records only when the history has a longjmp: the abandoned calls get no EXIT, replay closes them)"""
+    o, g = c["opts"], c["gen"]
+    st = fx_stream(c["impl"])
+    end = c["impl"][-1] if c["impl"] else ""
+    m = re.search(r"idx=(-?\d+) ridx=(-?\d+) filt=(-?\d+)/(-?\d+)/(-?\d+)/(-?\d+)/(\d+)/(\d+)", end)
+    if not m:
+        return "no END line (libmcount died?): %s %s" % (end[:80], c.get("stderr", "")[-120:])
+    got = tuple(int(x) for x in m.groups())
+    exp = (0, 0, 0, 0, 0, 65535, NO_TIME, 0)
+    if got != exp:
+        return ("filter state after all calls returned differs from the state before: idx/ridx/in/out/depth/max_depth/"
+                "time/size = %s, expected %s" % (got, exp))
+    if c["core"]:
+        want = doc_spec_stream(g.hist, o)
+        if g.longjmps:
+            if o.t:
+                return None
+            a = [t for t in st if t[0] == "E"]
+            b = [t for t in want if t[0] == "E"]
+        else:
+            a, b = st, want
+        if a != b:
+            k = next((i for i, (x, y) in enumerate(zip(a, b)) if x != y), min(len(a), len(b)))
+            return "recorded calls differ from the documented selection at %srecord %d: got %s, documented %s" % (
+                "ENTRY " if g.longjmps else "", k, a[k:k + 2], b[k:k + 2])
+    return None
+
+
+def fx_shapes(c):
+    """which of the two findings can explain a monitor failure of this case"""
+    o, g = c["opts"], c["gen"]
+    sh = set()
+    if g.pad_calls:
+        sh.add("pad")
+    trig = set(o.F) | set(o.N) | {fn for fn, acts in o.T if any(a in ("filter", "notrace") for a, _ in acts)}
+    if g.lj_over & trig:
+        sh.add("lj")
+    return sh
+
+
+# the inputs of the witness theorems (Props/C05.lean): -N f1; main calls setjmp, f1, which calls longjmp / f2 with an
+# object calls f1 which throws, the destructor f3 runs from the landing pad, f2 catches, then calls f4
+FX_PROBES = {
+    "lj": (dict(N=[1]), ["FXMODE", "T 1000", "CALL m 0 62 1001 0", "T 1010", "SETJMP 0 101 58 1002", "T 1020",
+                          "CALL m 1 59 1003 61", "T 1030", "LONGJMP 0 102 55 1004", "T 1040", "CALL m 2 59 1005 61",
+                          "T 1050", "RET 59", "T 1060", "RET 62", "END"],
+           ["T 1000", "FE pg 0 0", "T 1010", "FSJ 0 101", "T 1020", "FE pg 1 0", "T 1030", "FLJ 0 102 1", "T 1040",
+            "FE pg 2 0", "T 1050", "FR", "T 1060", "FR", "END"]),
+    "pad": (dict(N=[1]), ["FXMODE", "T 1000", "CALL m 0 62 1001 0", "T 1010", "CALL m 2 59 1002 61", "T 1020",
+                           "CALL m 1 56 1003 58", "T 1030", "THROW", "UNWIND", "CALL m 3 56 1004 58", "T 1040", "RET 56",
+                           "CATCH 58", "T 1050", "CALL m 4 56 1005 58", "T 1060", "RET 56", "T 1070", "RET 59", "T 1080",
+                           "RET 62", "END"],
+            ["T 1000", "FE pg 0 0", "T 1010", "FE pg 2 0", "T 1020", "FE pg 1 0", "T 1030", "FT", "FUW", "FE pg 3 0",
+             "T 1040", "FR", "FC", "T 1050", "FE pg 4 0", "T 1060", "FR", "T 1070", "FR", "T 1080", "FR", "END"]),
+}
+
+
+def fx_probe(ctx, exe, sizes):
+    """which variant of the two findings does this tree follow?  -> ({'lj': bool, 'pad': bool} (True = repaired), details)"""
+    res, det = {}, {}
+    for name, (od, cl, ml) in sorted(FX_PROBES.items()):
+        o = mcgen.Opts()
+        o.N = od["N"]
+        r = h1.run(ctx, exe, dict(fx_env(o), UFTRACE_BUFFER="1048576"), cl, 29000 + len(res))
+        impl = [C.norm(l[5:]) for l in r["lines"] if l.startswith("IMPL ")]
+        outs = {}
+        for v in (1, 0):
+            pre = ["RESET"] + mcgen.to_model(o, sizes, False) + ["NLFIX %d %d" % (v, v)]
+            outs[v] = [C.norm(x) for x in C.run_model("Mcount", pre + ml)[len(pre):]]
+        if impl == outs[1]:
+            res[name] = True
+        elif impl == outs[0]:
+            res[name] = False
+        else:
+            res[name] = None
+        det[name] = {"script": cl, "env": fx_env(o), "impl": impl, "model_repaired": outs[1], "model_as_found": outs[0],
+                     "stderr": r["stderr"][-300:]}
+    return res, det
+
+
+def fx_sym_sizes(exe):
+    sizes = mcheck.sym_sizes(exe)
+    sizes.pop(8, None)
+    return sizes
+
+
+def doc_filter_entries(entries, F=(), N=(), D=None):
+    """The documented record-time selection (uftrace-record.md, FILTERS) applied to the ground-truth log of one
+    thread of an e2e program: entries = [(fn, depth)] in call order, depth = true nesting depth below the thread's
+    root function (main / the thread function, depth 0, traced but not logged).  -F f: f and what it calls; -N f:
+    without f and what it calls; -D n: at most n nested visible levels, counted anew from a -F match.
+    -> [(fn, shown depth)], shown depth = number of recorded ancestors."""
+    optin = bool(F)
+    D = D if D is not None else 1024
+    root_vis = (not optin) and D > 0
+    stack = [{"inc": 0, "outc": 0, "b": D - 1 if root_vis else D, "vis": root_vis}]
+    out = []
+    for fn, d in entries:
+        del stack[max(d, 1):]
+        par = stack[-1]
+        if par["outc"] > 0:
+            node = {"inc": par["inc"], "outc": par["outc"], "b": par["b"], "vis": False}
+        else:
+            inc, outc, b = par["inc"], par["outc"], par["b"]
+            if fn in F:
+                inc, b = inc + 1, D
+            elif fn in N:
+                outc += 1
+            vis = outc == 0 and (not optin or inc > 0) and b > 0
+            if vis:
+                b -= 1
+            node = {"inc": inc, "outc": outc, "b": b, "vis": vis}
+        if node["vis"]:
+            out.append((fn, sum(1 for x in stack if x["vis"])))
+        stack.append(node)
+    return out
+
+
+class FXCase:
+    """a stored FX case (corpus/C05/fx_cases.json) in the shape of a generated one"""
+
+    def __init__(self, e):
+        self.c, self.m, self.hist = e["c"], e["m"], e["hist"]
+        self.exceptions, self.longjmps, self.pad_calls = e["exceptions"], e["longjmps"], e["pad_calls"]
+        self.lj_over, self.unw_over = set(e["lj_over"]), set(e["unw_over"])
+        self.name = e["name"]
+
+
+def fx_corpus():
+    try:
+        doc = json.load(open(C.VERIF + "/corpus/C05/fx_cases.json"))
+    except (OSError, ValueError):
+        return []
+    out = []
+    for e in doc.get("cases", []):
+        o = mcgen.Opts()
+        o.F, o.N, o.D, o.t = e["opts"].get("F", []), e["opts"].get("N", []), e["opts"].get("D"), e["opts"].get("t")
+        out.append({"opts": o, "gen": FXCase(e), "core": bool(e["core"]) and bool(e["hist"])})
+    return out
+
+
+def fx_finding_status(fid):
+    try:
+        kf = json.load(open(C.VERIF + "/known_findings.json"))
+    except (OSError, ValueError):
+        return None
+    for f in kf.get("findings", []):
+        if f.get("id") == fid:
+            return f.get("status")
+    return None
+
+
+def fx_report_finding(ctx, key, obj):
+    """an as-found variant recognised by its probe: open entry -> KNOWN-FINDING, fixed entry -> VIOLATION (regression),
+    no entry yet -> PENDING-FINDING (exit status 0; the repair is in proposed_fixes/)"""
+    fid, what, fixp = FX_FINDINGS[key]
+    st = fx_finding_status(fid)
+    if st == "open":
+        C.known(ctx, {"id": fid}, "%s %s" % (fid, what))
+    elif st == "fixed":
+        C.violation(ctx, "finding-" + fid, dict(obj, kind="property-violated-on-implementation", finding=fid, what=what,
+                                                note="recorded as fixed in known_findings.json: regression"))
+    else:
+        msg = "PENDING-FINDING: property=%s %s %s [not yet recorded in known_findings.json; proposed fix %s]" % (
+            ctx.prop, fid, what, fixp)
+        ctx.notes.append(msg)
+        ctx.coverage.setdefault("pending_findings", []).append(dict(obj, id=fid, what=what, proposed_fix=fixp))
+        print(msg)
+
+
+def fx_family(ctx, exe, n, report=True, max_replays=3, rng=None):
+    """generate, run and judge n FX cases.  Model/code disagreements and monitor failures that neither finding explains
+    are violations; -> statistics"""
+    sizes = fx_sym_sizes(exe)
+    var, det = fx_probe(ctx, exe, sizes)
+    st = {"cases": 0, "ops": 0, "disagreements": 0, "monitor_failures": 0, "attributed": {}, "variant": var,
+          "exceptions": 0, "longjmps": 0, "pad_calls": 0, "unwound_filtered_frames": 0, "core_option_sets": 0,
+          "violations": 0}
+    for k, v in sorted(var.items()):
+        if v is None:
+            st["violations"] += 1
+            C.violation(ctx, "fx-probe-" + k, dict(det[k], kind="model-code-disagreement",
+                                                   what="the probe of %s matches neither the repaired nor the as-found model" % FX_FINDINGS[k][0],
+                                                   theorem="c05_state_restored_unwind (correspondence Mcount, non-local exits)"), True)
+        elif not v and report:
+            fx_report_finding(ctx, k, {"probe": det[k]})
+    nl = {"lj": 1 if var.get("lj") else 0, "pad": 1 if var.get("pad") else 0}
+    rng = rng or ctx.rng
+    cases = fx_corpus()
+    st["corpus_cases"] = len(cases)
+    for i in range(n):
+        core = rng.random() < 0.55
+        o = fx_opts(rng, core)
+        # half of the histories leave the two findings' constructs out, so that their monitors judge every variant
+        plain = rng.random() < 0.5
+        g = FXGen(rng, rng.choice([15, 30, 60]), lj=(not plain) and rng.random() < 0.7, pads=(not plain) and rng.random() < 0.7,
+                  flush_calls=not core)
+        g.generate()
+        cases.append({"opts": o, "gen": g, "core": core})
+    fx_run(ctx, exe, sizes, cases, nl)
+    replays = 0
+    for i, c in enumerate(cases):
+        g = c["gen"]
+        st["cases"] += 1
+        st["ops"] += len(g.m)
+        st["exceptions"] += g.exceptions
+        st["longjmps"] += g.longjmps
+        st["pad_calls"] += g.pad_calls
+        st["core_option_sets"] += c["core"]
+        trig = set(c["opts"].F) | set(c["opts"].N) | {fn for fn, _ in c["opts"].T}
+        st["unwound_filtered_frames"] += len(g.unw_over & trig)
+        dis = c["impl"] != c["model"]
+        bad = fx_monitor(c)
+        sh = fx_shapes(c)
+        unf = sorted(k for k in sh if not nl[k])
+        st["disagreements"] += dis
+        st["monitor_failures"] += bool(bad)
+        if bad and not dis and unf:
+            for k in unf:
+                st["attributed"][k] = st["attributed"].get(k, 0) + 1
+            continue
+        if bad or dis:
+            st["violations"] += 1
+            if replays < max_replays:
+                replays += 1
+                first = next((j for j, (a, b) in enumerate(zip(c["impl"], c["model"])) if a != b),
+                             min(len(c["impl"]), len(c["model"])) if dis else None)
+                C.violation(ctx, "fx-case%d" % i, {
+                    "kind": "property-violated-on-implementation" if bad else "model-code-disagreement",
+                    "what": bad, "env": fx_env(c["opts"]), "script": g.c, "model_script": g.m, "history": g.hist[:200],
+                    "variant": nl, "shapes": sorted(sh),
+                    "first_line_difference": None if first is None else {
+                        "line": first, "op": g.c[first + 1] if first + 1 < len(g.c) else None,
+                        "impl": c["impl"][first][-300:] if first < len(c["impl"]) else None,
+                        "model": c["model"][first][-300:] if first < len(c["model"]) else None},
+                    "how": "harness/h1_c11_driver.c (built by checks/c11.py build_h1) with `env`, `script` on stdin",
+                    "theorem": "c05_state_restored_unwind / c05_exception_trace_eq_returns (correspondence Mcount, non-local exits)",
+                }, no_failing_input=not bad)
+    return st
+
+
+# ============================================================================ e2e: filters x non-local exits
+def P(kind, a=0, b=0):
+    return (kind, a, b)
+
+
+def e2e_directed():
+    """(name, ops, c++?, flavour, opt, dict(F,N,D), features): the function given to -N / -F / limited by -D is left by
+    an exception or a longjmp, then more calls follow"""
+    exc = [P("OP_TRYCALL", 1), P("OP_CALL", 3), P("OP_LEAF"), P("OP_CALL", 2), P("OP_LEAF"), P("OP_THROW", 5),
+           P("OP_LEAF"), P("OP_CALL", 4), P("OP_LEAF"), P("OP_RET", 1), P("OP_LEAF"), P("OP_TRYCALL", 3), P("OP_LEAF"),
+           P("OP_RET", 2), P("OP_LEAF"), P("OP_RET", 0)]
+    lj = [P("OP_LEAF"), P("OP_SETJMP", 0), P("OP_LEAF"), P("OP_CALL", 1), P("OP_CALL", 3), P("OP_LEAF"), P("OP_CALL", 2),
+          P("OP_LONGJMP", 0), P("OP_LEAF"), P("OP_CALL", 4), P("OP_LEAF"), P("OP_RET", 1), P("OP_LEAF"), P("OP_RET", 0)]
+    dtor = [P("OP_TRYCALL", 1), P("OP_DTORCALL", 3), P("OP_LEAF"), P("OP_CALL", 2), P("OP_LEAF"), P("OP_THROW", 5),
+            P("OP_LEAF"), P("OP_CALL", 4), P("OP_CALL", 5), P("OP_LEAF"), P("OP_RET", 1), P("OP_RET", 2), P("OP_LEAF"),
+            P("OP_RET", 0)]
+    out = [
+        ("exc-N", exc, True, "pg", "-O0", dict(N={3}), set()),
+        ("exc-N-fentry", exc, True, "fentry", "-O2", dict(N={3}), set()),
+        ("exc-F", exc, True, "pg", "-O0", dict(F={3}), set()),
+        ("exc-FN", exc, True, "pg", "-O0", dict(F={1}, N={3}), set()),
+        ("exc-D", exc, True, "pg", "-O0", dict(D=3), set()),
+        ("exc-N-cyg", exc, True, "cyg", "-O0", dict(N={3}), set()),
+        ("lj-N", lj, False, "pg", "-O0", dict(N={3}), {"lj"}),
+        ("lj-F", lj, False, "pg", "-O0", dict(F={3}), {"lj"}),
+        ("lj-D", lj, False, "pg", "-O0", dict(D=3), set()),
+        ("dtor-N", dtor, True, "pg", "-O0", dict(N={2}), {"pad"}),
+        ("dtor-D", dtor, True, "pg", "-O0", dict(D=4), {"pad"}),
+    ]
+    return [(n, ops + [P("OP_EXIT", 42)], cpp, fl, opt, flt, ft) for n, ops, cpp, fl, opt, flt, ft in out]
+
+
+def fn_name(i):
+    return "f%d" % i if i < 10 else "t%d" % (i - 10)
+
+
+def e2e_record_opts(flt):
+    ro = []
+    for f in sorted(flt.get("F", ())):
+        ro += ["-F", "^%s$" % fn_name(f)]
+    for f in sorted(flt.get("N", ())):
+        ro += ["-N", "^%s$" % fn_name(f)]
+    if flt.get("D") is not None:
+        ro += ["-D", str(flt["D"])]
+    return ro
+
+
+def e2e_case(ctx, c11chk, d, case):
+    """build, run natively (ground truth) and under `uftrace record <filter>`, compare the recorded ENTRY records of the
+    main task (uftrace dump: name, record depth) with the documented selection of the ground-truth log"""
+    import subprocess
+    from lib import datadir
+    name, ops, cpp, flavour, opt, flt, feats = case
+    res = {"name": name, "problems": [], "features": sorted(feats), "filter": {k: sorted(v) if isinstance(v, set) else v for k, v in flt.items()},
+           "flavour": flavour, "opt": opt, "cpp": cpp}
+    exe, log, pd = c11chk.build_prog(d, "c05-" + name, ops, cpp, flavour, opt)
+    if not exe:
+        res["problems"].append("build failed: " + log[-300:])
+        res["build_failed"] = True
+        return res
+    try:
+        p = subprocess.run([exe], stdout=subprocess.PIPE, stderr=subprocess.PIPE, timeout=60, cwd=pd)
+    except subprocess.TimeoutExpired:
+        res["problems"].append("native run timed out (generator bug)")
+        res["build_failed"] = True
+        return res
+    nrc, nout = p.returncode, p.stdout.decode("utf-8", "replace")
+    dd = pd + "/data"
+    ro = e2e_record_opts(flt)
+    res["record_opts"] = ro
+    cmd = ["timeout", "-s", "KILL", "60", ctx.src + "/uftrace", "record", "--libmcount-path=" + ctx.src + "/libmcount",
+           "--no-event", "--no-pager", "-d", dd] + ro + [exe]
+    p = subprocess.run(cmd, stdout=subprocess.PIPE, stderr=subprocess.PIPE, cwd=pd)
+    tout, terr = p.stdout.decode("utf-8", "replace"), p.stderr.decode("utf-8", "replace")
+    n_ent, n_tids, n_rest = c11chk.parse_gt(nout)
+    t_ent, t_tids, t_rest = c11chk.parse_gt(tout)
+    if n_rest != t_rest or (nrc == 0) != (p.returncode == 0):
+        res["problems"].append("the program behaves differently under uftrace record (C01/C11): rc %d/%d %s" % (
+            nrc, p.returncode, terr.strip()[-200:]))
+        return res
+    rc, out, err = datadir.run_uftrace(ctx.src + "/uftrace", "dump", dd, timeout=60)
+    if rc != 0 and "No data available" in err:
+        out = ""           # nothing was recorded at all (e.g. -F of a function that is never called)
+    elif rc != 0:
+        res["problems"].append("dump failed rc=%d %s" % (rc, err[-200:]))
+        return res
+    streams = c11chk.parse_dump(out)
+    for tid, idx in sorted(t_tids.items()):
+        got = [(c11chk.NAME_ID[nm], dp) for typ, dp, _, nm in streams.get(tid, []) if typ == 0 and nm in c11chk.NAME_ID]
+        want = doc_filter_entries(t_ent.get(idx, []), F=flt.get("F", ()), N=flt.get("N", ()), D=flt.get("D"))
+        res["entries"] = res.get("entries", 0) + len(t_ent.get(idx, []))
+        res["recorded"] = res.get("recorded", 0) + len(got)
+        if want != got:
+            k = next((i for i in range(min(len(want), len(got))) if want[i] != got[i]), min(len(want), len(got)))
+            res["problems"].append("record-time filter: task %d call #%d of the selection: documented (fn,depth)=%s, recorded %s "
+                                   "(%d documented, %d recorded)" % (idx, k, want[k] if k < len(want) else None,
+                                                                     got[k] if k < len(got) else None, len(want), len(got)))
+            break
+    return res
+
+
+def e2e_family(ctx, nl, quick, rng):
+    """C++ programs with exceptions / C programs with longjmp passing through -N / -F / -D-limited functions.
+    nl: which of the two findings are repaired in this tree (from fx_probe) -> statistics"""
+    from concurrent.futures import ThreadPoolExecutor
+    from checks import c11 as c11chk
+    st = {"programs": 0, "failures": 0, "attributed": {}, "entries": 0, "recorded": 0, "violations": 0}
+    made, mlog = ctx.make()
+    if not made:
+        C.violation(ctx, "build", {"kind": "uftrace-build-failed", "log": mlog[-3000:]}, True)
+        st["violations"] += 1
+        return st
+    d, log = c11chk.build_e2e_support(ctx)
+    if not d:
+        C.violation(ctx, "build", {"kind": "e2e-support-build-failed", "log": log[-2000:]}, True)
+        st["violations"] += 1
+        return st
+    cases = e2e_directed()
+    flv = ["pg", "fentry", "cyg"]
+    for i in range(6 if quick else 150):
+        cpp = rng.random() < 0.65
+        for _ in range(30):
+            if cpp:
+                g = c11chk.E2EGen(rng, True, rng.choice([30, 60]), allow=(), plain_exc=True)
+            else:
+                g = c11chk.E2EGen(rng, False, rng.choice([30, 60]), allow=(), latest_only=True)
+            ops = g.generate()
+            called = sorted(set(a for k, a, _ in ops if k in ("OP_CALL", "OP_TRYCALL", "OP_RETHROWCALL", "OP_TAIL") and a != 0))
+            nonlocal_exits = sum(1 for k, _, _ in ops if k in ("OP_THROW", "OP_LONGJMP", "OP_SIGLONGJMP"))
+            if len(called) >= 2 and nonlocal_exits >= 1:
+                break
+        called = called or [3]
+        r = rng.random()
+        if r < 0.4:
+            flt = dict(N={rng.choice(called)})
+        elif r < 0.65:
+            flt = dict(F={rng.choice(called)})
+        elif r < 0.8:
+            flt = dict(D=rng.randint(2, 5))
+        else:
+            a, b = rng.choice(called), rng.choice(called)
+            flt = dict(F={a}, N={b}) if a != b else dict(N={b})
+        feats = set()
+        if "longjmp" in g.features and (flt.get("F") or flt.get("N")):
+            feats.add("lj")
+        cases.append(("prog%d" % i, ops, cpp, flv[i % 3], "-O2" if (i // 3) % 2 else "-O0", flt, feats))
+    with ThreadPoolExecutor(12) as ex:
+        res = list(ex.map(lambda c: e2e_case(ctx, c11chk, d, c), cases))
+    replays = 0
+    for c, r in zip(cases, res):
+        st["programs"] += 1
+        st["entries"] += r.get("entries", 0)
+        st["recorded"] += r.get("recorded", 0)
+        if r.get("build_failed"):
+            st["violations"] += 1
+            C.violation(ctx, "e2e-" + r["name"], {"kind": "harness-failed", "what": r["problems"]}, True)
+            continue
+        if not r["problems"]:
+            continue
+        st["failures"] += 1
+        unf = sorted(k for k in c[6] if not nl.get(k))
+        if unf:
+            for k in unf:
+                st["attributed"][k] = st["attributed"].get(k, 0) + 1
+            continue
+        st["violations"] += 1
+        if replays < 3:
+            replays += 1
+            C.violation(ctx, "e2e-" + r["name"], dict(r, kind="property-violated-on-implementation", script=c[1],
+                                                      how="script.h from `script` (checks/c11.py script_h), harness/c11_e2e.c built as "
+                                                          "checks/c11.py build_prog() does, run natively and under uftrace record "
+                                                          "<record_opts>, uftrace dump vs the documented selection of the program's own log",
+                                                      theorem="c05_state_restored_unwind / c05_exception_stream_well_nested"))
+    st["directed"] = {r["name"]: ("ok" if not r["problems"] else r["problems"][0][:160]) for r in res[:len(e2e_directed())]}
+    return st
+
+
 def run(ctx):
     ctx.snapshot()
     try:
@@ -82,9 +800,18 @@ def run(ctx):
     except Exception as e:
         ok, problems = False, ['translator failed: %s' % e]
     proof_broken = not ok
-    exe, log = h1.build(ctx, "normal")
-    if not exe:
-        C.violation(ctx, "build", {"kind": "harness-build-failed", "log": log[-3000:]}, True)
+    if proof_broken:
+        C.lake_build(["uv_Mcount"])       # the hook model's driver does not depend on the theorems
+    from concurrent.futures import ThreadPoolExecutor
+    from checks import c11 as c11chk
+    with ThreadPoolExecutor(3) as ex:
+        fut11 = ex.submit(c11chk.build_h1, ctx, "h1c11-c05")
+        fut_make = ex.submit(ctx.make)
+        exe, log = h1.build(ctx, "normal")
+        exe11, log11 = fut11.result()
+        fut_make.result()
+    if not exe or not exe11:
+        C.violation(ctx, "build", {"kind": "harness-build-failed", "log": (log or log11)[-3000:]}, True)
         return C.finish(ctx)
     sizes = mcheck.sym_sizes(exe)
     rng = ctx.rng
@@ -250,15 +977,30 @@ def run(ctx):
                         "what": "recorded trace depends on the instrumentation method (-pg vs -finstrument-functions)",
                         "env": mcgen.to_env(c["opts"]), "script_pg": c["script"][:300],
                         "first_difference": {"index": k, "pg": d["pg"][k:k + 3], "cyg": d["cyg"][k:k + 3]}})
+    # ---------------------------------------------------------------- filters x non-local exits
+    import random
+    fxst = fx_family(ctx, exe11, 120 if ctx.tier == "quick" else 4000, report=True,
+                     rng=random.Random(ctx.seed * 1000003 + 505))
+    nlv = {k: bool(v) for k, v in fxst["variant"].items()}
+    e2st = e2e_family(ctx, nlv, ctx.tier == "quick", random.Random(ctx.seed * 1000003 + 506))
     if proof_broken:
+        concrete = [pth for pth, nfi in ctx.violations if not nfi]
         C.violation(ctx, "proof", {"kind": "proof-obligation-broken", "problems": problems,
-                                   "searched": "%d H1 cases; monitor failures %d" % (total, monitor_fail)},
-                    no_failing_input=(monitor_fail == 0))
+                                   "searched": "%d H1 cases (monitor failures %d); %d FX cases; %d e2e programs" % (
+                                       total, monitor_fail, fxst["cases"], e2st["programs"]),
+                                   "failing_inputs_found": concrete[:6]},
+                    no_failing_input=not concrete)
     ctx.coverage.update({
-        "evaluations": total, "distinct_nontrivial": len(distinct),
+        "fx_nonlocal_exits": fxst, "e2e_nonlocal_exits": e2st,
+        "evaluations": total + fxst["cases"] + e2st["programs"], "distinct_nontrivial": len(distinct) + fxst["cases"] + e2st["programs"],
         "rule": "random option sets (-F/-N/-C/-D/-t/-Z/-L/-T depth,time,size,trace,filter,notrace,trace_on/off; regex/glob/simple "
                 "patterns; optional small max_stack) x random call forests over 9 symbols in 2 source files, each forest followed by "
-                "two probe calls, each run under the -pg hook, the cygprof hook and a mix. distinct = distinct (options, script)",
+                "two probe calls, each run under the -pg hook, the cygprof hook and a mix. distinct = distinct (options, script).  "
+                "FX: random option sets x random histories with exceptions (throw, unwinding k frames, landing-pad calls, resume, "
+                "catch) and setjmp/longjmp through functions that hold filter state, on the C11 H1 harness (fake frames, PLT symbols "
+                "bound by name) against the hook model's unwindExc/padEntry*/pltEntry/jmpRestore, with the state-restoration and "
+                "documented-selection monitors.  e2e: C++/C programs whose exceptions/longjmps pass through -N/-F/-D-limited "
+                "functions, recorded ENTRY records (uftrace dump) vs the documented selection of the program's own call log",
         "input_distribution": dist, "model_code_disagreements": disagreements, "monitor_failures_on_impl": monitor_fail,
         "known_finding_hits": known_hits, "libmcount_matches_pre_F7_hook_model": prefix_f7, "method_independence_pairs": indep_checked, "method_independence_failures": indep_fail,
         "samples": samples, "exhaustive": False,
